@@ -33,7 +33,7 @@ type recSource struct {
 	Dialect []string `json:"dialect,omitempty"`
 }
 
-var dialects = []string{"shuffle-quals", "wrap-dblink", "crlf", "trailing-blanks", "origin-bare", "lower-month", "blank-lines-after", "bare-flag", "bare-flag"}
+var dialects = []string{"shuffle-quals", "wrap-dblink", "crlf", "trailing-blanks", "origin-bare", "lower-month", "blank-lines-after", "bare-flag", "bare-flag", "bare-number", "bare-number"}
 
 // applyDialect rewrites GenBank text written by gts into a foreign layout.
 func applyDialect(text []byte, d string, seed uint64) []byte {
@@ -121,6 +121,28 @@ func applyDialect(text []byte, d string, seed uint64) []byte {
 					if u == name {
 						lines[i] = qi + "/" + name + "\n"
 					}
+				}
+			}
+		}
+	case "bare-number":
+		// a numeric value of a name gts has no type for, written without quotes
+		// as other tools do: /name=42 instead of /name="42"
+		for i, l := range lines {
+			t := strings.TrimRight(l, "\n")
+			if !strings.HasPrefix(t, qi+"/") || !strings.HasSuffix(t, "\"") {
+				continue
+			}
+			eq := strings.Index(t, "=\"")
+			if eq < 0 {
+				continue
+			}
+			name, val := t[len(qi)+1:eq], t[eq+2:len(t)-1]
+			if val == "" || strings.Trim(val, "0123456789") != "" {
+				continue
+			}
+			for _, u := range unknownNames {
+				if u == name {
+					lines[i] = qi + "/" + name + "=" + val + "\n"
 				}
 			}
 		}
